@@ -149,6 +149,11 @@ type gen struct {
 func (g *gen) wide() program {
 	r := g.r
 	n := 12 + r.Intn(8)
+	if r.Chance(12) {
+		// beyond any batch size an implementation might choose (64, 128, 256 ...)
+		n = 130 + r.Intn(400)
+		g.st.Hit("program:very-wide")
+	}
 	var p program
 	var main []act
 	for i := 1; i < n; i++ {
